@@ -150,7 +150,7 @@ fn exec_pure(op: &str) -> String {
 mod sock {
     use super::*;
     use futures::{SinkExt, StreamExt};
-    use ratchet::{Message, NoExt, Role, WebSocket, WebSocketConfig};
+    use ratchet::{NoExt, Role, WebSocket, WebSocketConfig};
     use std::collections::{HashMap, HashSet};
     use std::num::NonZeroUsize;
     use std::sync::{Arc, Mutex};
@@ -231,7 +231,7 @@ mod sock {
         ev_rx: mpsc::UnboundedReceiver<Ev>,
         attach_tx: mpsc::Sender<AttachClient>,
         stop_tx: Option<trigger::Sender>,
-        peer_tx: ratchet::Sender<tokio::io::DuplexStream, <NoExt as ratchet::SplittableExtension>::SplitEncoder>,
+        peer_tx: tokio::io::WriteHalf<tokio::io::DuplexStream>, // the peer speaks raw RFC 6455 frames
         resolvable: Arc<Mutex<HashSet<String>>>,
         agents: Arc<Mutex<Vec<AgentEnd>>>,
         dls: HashMap<u64, DlEnd>,
@@ -249,8 +249,8 @@ mod sock {
             let (server, client) = tokio::io::duplex(BUF);
             let config = WebSocketConfig::default();
             let server = WebSocket::from_upgraded(config, server, Some(NoExt), BytesMut::new(), Role::Server);
-            let client = WebSocket::from_upgraded(config, client, Some(NoExt), BytesMut::new(), Role::Client);
-            let (peer_tx, mut peer_rx) = client.split().expect("split");
+            // the peer is hand-made (raw frames), so that it can fragment messages and interleave control frames
+            let (mut peer_rx, peer_tx) = tokio::io::split(client);
             let (ev_tx, ev_rx) = mpsc::unbounded_channel();
 
             let remote = RemoteTask::new(
@@ -264,31 +264,58 @@ mod sock {
             );
             let task = tokio::spawn(remote.run());
 
-            // peer reader
+            // peer reader: parses the (unmasked) frames the server writes
             let tx = ev_tx.clone();
             let peer_task = tokio::spawn(async move {
-                let mut buf = BytesMut::new();
+                use tokio::io::AsyncReadExt;
                 loop {
-                    buf.clear();
-                    match peer_rx.read(&mut buf).await {
-                        Ok(Message::Text) => {
-                            let _ = tx.send(Ev::Peer(hex(buf.as_ref())));
+                    let mut h = [0u8; 2];
+                    if peer_rx.read_exact(&mut h).await.is_err() {
+                        let _ = tx.send(Ev::Peer("gone".into()));
+                        break;
+                    }
+                    let (fin, opcode, masked) = (h[0] & 0x80 != 0, h[0] & 0x0f, h[1] & 0x80 != 0);
+                    let mut len = (h[1] & 0x7f) as u64;
+                    if len == 126 {
+                        let mut b = [0u8; 2];
+                        if peer_rx.read_exact(&mut b).await.is_err() { break; }
+                        len = u16::from_be_bytes(b) as u64;
+                    } else if len == 127 {
+                        let mut b = [0u8; 8];
+                        if peer_rx.read_exact(&mut b).await.is_err() { break; }
+                        len = u64::from_be_bytes(b);
+                    }
+                    let mut key = [0u8; 4];
+                    if masked && peer_rx.read_exact(&mut key).await.is_err() { break; }
+                    let mut payload = vec![0u8; len as usize];
+                    if peer_rx.read_exact(&mut payload).await.is_err() {
+                        let _ = tx.send(Ev::Peer("gone".into()));
+                        break;
+                    }
+                    if masked {
+                        for (i, b) in payload.iter_mut().enumerate() { *b ^= key[i % 4]; }
+                    }
+                    match opcode {
+                        1 if fin => {
+                            let _ = tx.send(Ev::Peer(hex(&payload)));
                         }
-                        Ok(Message::Close(reason)) => {
-                            let code = match reason {
-                                Some(r) => format!("{:?}", r.code).to_lowercase(),
-                                None => "none".to_string(),
+                        8 => {
+                            let code = if payload.len() >= 2 {
+                                match u16::from_be_bytes([payload[0], payload[1]]) {
+                                    1000 => "normal".to_string(),
+                                    1001 => "goingaway".to_string(),
+                                    1002 => "protocol".to_string(),
+                                    c => format!("{}", c),
+                                }
+                            } else {
+                                "none".to_string()
                             };
                             let _ = tx.send(Ev::Peer(format!("close:{}", code)));
                             break;
                         }
-                        Ok(Message::Binary) => {
-                            let _ = tx.send(Ev::Peer("binary".into()));
-                        }
-                        Ok(_) => {}
-                        Err(_) => {
-                            let _ = tx.send(Ev::Peer("gone".into()));
-                            break;
+                        9 | 10 => {} // ping / pong from the server
+                        _ => {
+                            let _ = tx.send(Ev::Peer(format!("frame:{}:{}", opcode, fin)));
                         }
                     }
                 }
@@ -462,6 +489,22 @@ mod sock {
             }
         }
 
+        /// One raw client frame (masked with the all-zero key, which leaves the payload as it is).
+        async fn write_frame(&mut self, fin: bool, opcode: u8, payload: &[u8]) {
+            use tokio::io::AsyncWriteExt;
+            let mut f = vec![(if fin { 0x80 } else { 0 }) | opcode];
+            if payload.len() < 126 {
+                f.push(0x80 | payload.len() as u8);
+            } else {
+                f.push(0x80 | 126);
+                f.extend_from_slice(&(payload.len() as u16).to_be_bytes());
+            }
+            f.extend_from_slice(&[0, 0, 0, 0]);
+            f.extend_from_slice(payload);
+            let _ = self.peer_tx.write_all(&f).await;
+            let _ = self.peer_tx.flush().await;
+        }
+
         pub async fn exec(&mut self, op: &str) -> String {
             let parts: Vec<&str> = op.split_whitespace().collect();
             let s = |h: &str| unhex(h).and_then(|b| String::from_utf8(b).ok());
@@ -560,7 +603,50 @@ mod sock {
                 }
                 ["in", f] => {
                     let Some(frame) = s(f) else { return "bad-op".into() };
-                    let _ = self.peer_tx.write_text(frame).await;
+                    self.write_frame(true, 1, frame.as_bytes()).await;
+                    self.settle(None).await
+                }
+                ["infrag", f, plan] => {
+                    // one text message in fragments; `plan` = comma list: a number n = the next fragment carries n bytes,
+                    // p / q = a ping / pong control frame, b = a binary frame, t = a new text frame, c = a close frame
+                    // at this point; the rest of the payload goes into the final fragment
+                    let Some(bytes) = unhex(f) else { return "bad-op".into() };
+                    let mut pos = 0usize;
+                    let mut first = true;
+                    let mut aborted = false;
+                    for tok in plan.split(',') {
+                        match tok {
+                            "p" => self.write_frame(true, 9, b"k").await,
+                            "q" => self.write_frame(true, 10, b"").await,
+                            "b" => self.write_frame(true, 2, b"\x01\x02").await,
+                            "t" => self.write_frame(true, 1, b"@event(node:x,lane:y)").await,
+                            "c" => {
+                                self.write_frame(true, 8, &1000u16.to_be_bytes()).await;
+                                aborted = true;
+                                break;
+                            }
+                            "-" | "" => {}
+                            n => {
+                                let n: usize = n.parse().unwrap_or(0);
+                                let end = (pos + n).min(bytes.len());
+                                self.write_frame(false, if first { 1 } else { 0 }, &bytes[pos..end]).await;
+                                first = false;
+                                pos = end;
+                            }
+                        }
+                    }
+                    if !aborted {
+                        self.write_frame(true, if first { 1 } else { 0 }, &bytes[pos..]).await;
+                    }
+                    self.settle(None).await
+                }
+                ["inbin", f] => {
+                    let Some(bytes) = unhex(f) else { return "bad-op".into() };
+                    self.write_frame(true, 2, &bytes).await;
+                    self.settle(None).await
+                }
+                ["inclose"] => {
+                    self.write_frame(true, 8, &1000u16.to_be_bytes()).await;
                     self.settle(None).await
                 }
                 ["send", src, kind, n, l, b] => {
@@ -1062,6 +1148,287 @@ mod mr {
     }
 }
 
+// ------------------------------------------------------------------------------------------------ MultiReader, wake-time polls
+//
+// `mrw`: the real `MultiReader` over passive sources, where the TASK's waker — when a source wakes it — polls the
+// reader at once, on the spot, before the waker call returns (the most eager scheduler there can be). A task woken
+// because a source has something must find it: the ready flag has to be published before the wake.
+// `mrs`: the same property under real threads: producers write through real byte channels from their own threads, the
+// consumer thread polls with a waker-driven loop; rounds of simultaneous writes separated by quiet periods.
+mod mrw {
+    use super::*;
+    use futures::Stream;
+    use std::cell::RefCell;
+    use std::collections::VecDeque;
+    use std::pin::Pin;
+    use std::rc::Rc;
+    use std::sync::Arc;
+    use std::task::{Context, Poll, Wake, Waker};
+    use swimos_utilities::multi_reader::MultiReader;
+
+    #[derive(Default)]
+    struct Source {
+        q: VecDeque<u64>,
+        closed: bool,
+        waker: Option<Waker>,
+    }
+    struct SourceStream(Rc<RefCell<Source>>);
+    impl Stream for SourceStream {
+        type Item = u64;
+        fn poll_next(self: Pin<&mut Self>, cx: &mut Context<'_>) -> Poll<Option<u64>> {
+            let mut s = self.0.borrow_mut();
+            if let Some(x) = s.q.pop_front() {
+                Poll::Ready(Some(x))
+            } else if s.closed {
+                Poll::Ready(None)
+            } else {
+                s.waker = Some(cx.waker().clone());
+                Poll::Pending
+            }
+        }
+    }
+
+    thread_local! {
+        static READER: RefCell<Option<MultiReader<SourceStream>>> = const { RefCell::new(None) };
+        static WOKE: RefCell<Vec<String>> = const { RefCell::new(Vec::new()) };
+    }
+
+    /// The task's waker: poll right now.
+    struct PollOnWake;
+    impl Wake for PollOnWake {
+        fn wake(self: Arc<Self>) {
+            self.wake_by_ref()
+        }
+        fn wake_by_ref(self: &Arc<Self>) {
+            let r = poll_reader();
+            WOKE.with(|w| w.borrow_mut().push(r));
+        }
+    }
+
+    fn poll_reader() -> String {
+        let waker = Waker::from(Arc::new(PollOnWake));
+        let mut cx = Context::from_waker(&waker);
+        READER.with(|r| match r.try_borrow_mut() {
+            Ok(mut g) => match g.as_mut() {
+                Some(reader) => match Pin::new(reader).poll_next(&mut cx) {
+                    Poll::Ready(Some(x)) => format!("item:{}", x),
+                    Poll::Ready(None) => "none".to_string(),
+                    Poll::Pending => "pending".to_string(),
+                },
+                None => "noreader".to_string(),
+            },
+            Err(_) => "reentrant".to_string(), // woken from inside a poll: the task is already running
+        })
+    }
+
+    pub fn run_case(ops: &[String], t: &mut Trace) {
+        READER.with(|r| *r.borrow_mut() = Some(MultiReader::new()));
+        let mut sources: Vec<Rc<RefCell<Source>>> = vec![];
+        for op in ops {
+            WOKE.with(|w| w.borrow_mut().clear());
+            let parts: Vec<&str> = op.split_whitespace().collect();
+            let add = |sources: &mut Vec<Rc<RefCell<Source>>>| {
+                let s: Rc<RefCell<Source>> = Default::default();
+                sources.push(s.clone());
+                READER.with(|r| r.borrow_mut().as_mut().unwrap().add(SourceStream(s)));
+            };
+            let res: String = match parts.as_slice() {
+                ["add"] => {
+                    add(&mut sources);
+                    "ok".into()
+                }
+                ["addn", k] => {
+                    for _ in 0..k.parse::<usize>().unwrap_or(0) {
+                        add(&mut sources);
+                    }
+                    "ok".into()
+                }
+                ["push", s, x] => match (s.parse::<usize>().ok().and_then(|i| sources.get(i)), x.parse::<u64>()) {
+                    (Some(src), Ok(x)) => {
+                        let w = {
+                            let mut g = src.borrow_mut();
+                            if g.closed {
+                                None
+                            } else {
+                                g.q.push_back(x);
+                                g.waker.take()
+                            }
+                        };
+                        if let Some(w) = w {
+                            w.wake();
+                        }
+                        "ok".into()
+                    }
+                    _ => "bad-op".into(),
+                },
+                ["close", s] => match s.parse::<usize>().ok().and_then(|i| sources.get(i)) {
+                    Some(src) => {
+                        let w = {
+                            let mut g = src.borrow_mut();
+                            g.closed = true;
+                            g.waker.take()
+                        };
+                        if let Some(w) = w {
+                            w.wake();
+                        }
+                        "ok".into()
+                    }
+                    None => "bad-op".into(),
+                },
+                ["poll"] => poll_reader().replace(':', " "),
+                ["wakepoll"] => "ok".into(),
+                _ => "bad-op".into(),
+            };
+            let woke = WOKE.with(|w| w.borrow().join(","));
+            t.op(op, format!("{} woke={}", res, if woke.is_empty() { "-".to_string() } else { woke }));
+        }
+        READER.with(|r| *r.borrow_mut() = None);
+    }
+}
+
+mod mrs {
+    use super::*;
+    use futures::{SinkExt, Stream};
+    use std::num::NonZeroUsize;
+    use std::pin::Pin;
+    use std::sync::atomic::{AtomicBool, Ordering};
+    use std::sync::{Arc, Barrier};
+    use std::task::{Context, Poll, Wake, Waker};
+    use std::time::{Duration, Instant};
+    use swimos_messages::protocol::{RawRequestMessageDecoder, RawRequestMessageEncoder};
+    use swimos_utilities::byte_channel::byte_channel;
+    use swimos_utilities::multi_reader::MultiReader;
+    use tokio_util::codec::{FramedRead, FramedWrite};
+
+    struct Flag {
+        woken: AtomicBool,
+    }
+    impl Wake for Flag {
+        fn wake(self: Arc<Self>) {
+            self.woken.store(true, Ordering::SeqCst);
+        }
+        fn wake_by_ref(self: &Arc<Self>) {
+            self.woken.store(true, Ordering::SeqCst);
+        }
+    }
+
+    /// `stress <producers> <rounds>`: in every round all producers write one command at the same moment (barrier),
+    /// then the socket is quiet; the consumer spins on its wake flag and polls when woken.
+    pub fn stress(producers: usize, rounds: usize) -> String {
+        let mut reader: MultiReader<FramedRead<_, RawRequestMessageDecoder>> = MultiReader::new();
+        let mut writers = vec![];
+        for _ in 0..producers {
+            let (tx, rx) = byte_channel(NonZeroUsize::new(4096).unwrap());
+            reader.add(FramedRead::new(rx, RawRequestMessageDecoder));
+            writers.push(FramedWrite::new(tx, RawRequestMessageEncoder));
+        }
+        let barrier = Arc::new(Barrier::new(producers + 1));
+        let mut handles = vec![];
+        for (p, mut w) in writers.into_iter().enumerate() {
+            let b = barrier.clone();
+            handles.push(std::thread::spawn(move || {
+                for r in 0..rounds {
+                    b.wait();
+                    let body = format!("{}:{}", p, r);
+                    let m: BytesRequestMessage = RequestMessage {
+                        origin: Uuid::from_u128(p as u128),
+                        path: RelativeAddress::new(BytesStr::from("/n"), BytesStr::from("l")),
+                        envelope: Operation::Command(Bytes::from(body.into_bytes())),
+                    };
+                    let _ = futures::executor::block_on(w.send(m));
+                    b.wait();
+                }
+            }));
+        }
+        let flag = Arc::new(Flag { woken: AtomicBool::new(true) });
+        let waker = Waker::from(flag.clone());
+        let mut cx = Context::from_waker(&waker);
+        let (mut delivered, mut dup, mut order_bad, mut stuck) = (0usize, 0usize, 0usize, 0usize);
+        let mut next = vec![0usize; producers];
+        for r in 0..rounds {
+            barrier.wait();
+            let mut got = 0usize;
+            let mut last_progress = Instant::now();
+            while got < producers {
+                let woken = flag.woken.swap(false, Ordering::SeqCst);
+                let rescue = !woken && last_progress.elapsed() > Duration::from_millis(250);
+                if !woken && !rescue {
+                    std::hint::spin_loop();
+                    continue;
+                }
+                // poll until pending
+                let mut any = false;
+                loop {
+                    match Pin::new(&mut reader).poll_next(&mut cx) {
+                        Poll::Ready(Some(Ok(m))) => {
+                            any = true;
+                            got += 1;
+                            delivered += 1;
+                            let body = match &m.envelope {
+                                Operation::Command(b) => String::from_utf8_lossy(b).to_string(),
+                                _ => String::new(),
+                            };
+                            let mut it = body.split(':');
+                            let (p, rr) = (
+                                it.next().and_then(|x| x.parse::<usize>().ok()).unwrap_or(usize::MAX),
+                                it.next().and_then(|x| x.parse::<usize>().ok()).unwrap_or(usize::MAX),
+                            );
+                            if p >= producers {
+                                order_bad += 1;
+                            } else if rr < next[p] {
+                                dup += 1;
+                            } else if rr > next[p] {
+                                order_bad += 1;
+                                next[p] = rr + 1;
+                            } else {
+                                next[p] = rr + 1;
+                            }
+                        }
+                        Poll::Ready(Some(Err(_))) => {
+                            order_bad += 1;
+                            break;
+                        }
+                        Poll::Ready(None) => break,
+                        Poll::Pending => break,
+                    }
+                }
+                if any {
+                    last_progress = Instant::now();
+                    if rescue {
+                        // an item was sitting in a channel while the task had not been woken for it; a wake that is
+                        // merely late (its thread was descheduled) still arrives: give it generous time
+                        std::thread::sleep(Duration::from_millis(300));
+                        if !flag.woken.load(Ordering::SeqCst) {
+                            stuck += 1;
+                        }
+                    }
+                } else if rescue {
+                    if last_progress.elapsed() > Duration::from_secs(5) {
+                        return format!("pushed={} delivered={} dup={} disorder={} stuck={} dead=1 round={}",
+                                       (r + 1) * producers, delivered, dup, order_bad, stuck, r);
+                    }
+                }
+            }
+            barrier.wait();
+        }
+        for h in handles {
+            let _ = h.join();
+        }
+        format!("pushed={} delivered={} dup={} disorder={} stuck={} dead=0", rounds * producers, delivered, dup, order_bad, stuck)
+    }
+
+    pub fn run_case(ops: &[String], t: &mut Trace) {
+        for op in ops {
+            let parts: Vec<&str> = op.split_whitespace().collect();
+            let o = match parts.as_slice() {
+                ["stress", p, r] => stress(p.parse().unwrap_or(2), r.parse().unwrap_or(10)),
+                _ => "bad-op".into(),
+            };
+            t.op(op, o);
+        }
+    }
+}
+
 // ------------------------------------------------------------------------------------------------ route generator
 
 const R_NODES: [&str; 7] = ["/a", "/b", "a b", "true", "/a%20b", "/A", "n"];
@@ -1201,14 +1568,52 @@ fn gen_route_ops(rng: &mut Rng) -> Vec<String> {
                 ops.push(format!("agents {}", resolvable.iter().map(|n| hs(n)).collect::<Vec<_>>().join(" ")).trim().to_string());
             }
             98 => ops.push("stop".into()),
+            99 => ops.push((*rng.pick(&["inbin 0102", "inclose", "inbin -"])).to_string()),
             _ => {}
         }
     }
+    // a third of the peer's envelopes travel as fragmented messages with control frames in between
+    let ops: Vec<String> = ops
+        .into_iter()
+        .map(|op| match op.strip_prefix("in ") {
+            Some(f) if rng.chance(1, 3) => fragment_op(rng, f),
+            _ => op,
+        })
+        .collect();
     ops
 }
 
+/// Send the same envelope as a fragmented text message: 1-3 cuts anywhere (also inside the header and inside
+/// multi-byte characters), ping/pong control frames before, between and after the fragments; rarely a negative case.
+fn fragment_op(rng: &mut Rng, frame_hex: &str) -> String {
+    let len = if frame_hex == "-" { 0 } else { frame_hex.len() / 2 };
+    let mut toks: Vec<String> = vec![];
+    let mut ctl = |rng: &mut Rng, toks: &mut Vec<String>| {
+        for _ in 0..rng.below(3) {
+            toks.push(if rng.chance(2, 3) { "p".into() } else { "q".into() });
+        }
+    };
+    if rng.chance(1, 4) {
+        ctl(rng, &mut toks);
+    }
+    let cuts = rng.range(1, 3);
+    let mut left = len as u64;
+    for _ in 0..cuts {
+        let n = if left == 0 { 0 } else { rng.below(left + 1) };
+        toks.push(format!("{}", n));
+        left -= n;
+        if rng.chance(3, 4) {
+            ctl(rng, &mut toks);
+        }
+        if rng.chance(1, 60) {
+            toks.push((*rng.pick(&["b", "t", "c"])).to_string());
+        }
+    }
+    format!("infrag {} {}", frame_hex, toks.join(","))
+}
+
 fn is_route_op(op: &str) -> bool {
-    matches!(op.split_whitespace().next(), Some("agents" | "attach" | "attach1" | "in" | "send" | "burst" | "detach" | "stop"))
+    matches!(op.split_whitespace().next(), Some("agents" | "attach" | "attach1" | "in" | "infrag" | "inbin" | "inclose" | "send" | "burst" | "detach" | "stop"))
 }
 
 fn gen_pure_case(rng: &mut Rng, t: &mut Trace) {
@@ -1244,6 +1649,16 @@ fn main() {
                         let ops = mr::gen_ops(&mut rng);
                         mr::run_case(&ops, &mut t);
                     }
+                    "mrw" => {
+                        // the marker op `wakepoll` tells a replay which engine the case belongs to
+                        let mut ops: Vec<String> = vec!["wakepoll".to_string()];
+                        ops.extend(mr::gen_ops(&mut rng).into_iter().filter(|o| o != "empty"));
+                        mrw::run_case(&ops, &mut t);
+                    }
+                    "mrs" => {
+                        let ops = vec![format!("stress {} {}", rng.range(2, 24), rng.range(20, 120))];
+                        mrs::run_case(&ops, &mut t);
+                    }
                     "route" => {
                         let ops = gen_route_ops(&mut rng);
                         sock::run_case(&ops, &mut t);
@@ -1257,6 +1672,14 @@ fn main() {
             let mut t = Trace::create(&out);
             for (i, case) in ops.iter().enumerate() {
                 t.case(i);
+                if case.first().map(|o| o.starts_with("stress")).unwrap_or(false) {
+                    mrs::run_case(case, &mut t);
+                    continue;
+                }
+                if case.first().map(|o| o == "wakepoll").unwrap_or(false) {
+                    mrw::run_case(case, &mut t);
+                    continue;
+                }
                 if case.first().map(|o| matches!(o.split_whitespace().next(), Some("add" | "addn" | "poll" | "push" | "close" | "empty"))).unwrap_or(false) {
                     mr::run_case(case, &mut t);
                     continue;
